@@ -449,9 +449,10 @@ async fn layout(out: &mut Out, rng: &mut Rng, ups: &[Upd], force_chk_first: bool
                 if real.man.next_segment_id == 0 { 0 } else { real.man.next_segment_id - 1 }
             }
         };
+        let before_first_flush = real.man.next_segment_id == 0;
         real.chk(out, name, last, &state).await;
         real.mcompact(out, name, last, state.len() as u64);
-        out.count(if real.man.next_segment_id == 0 { "layout:checkpoint-before-first-flush" } else { "layout:checkpoint" });
+        out.count(if before_first_flush { "layout:checkpoint-before-first-flush" } else { "layout:checkpoint" });
     }
     for b in 1..=nseg {
         let ds = buckets[b].clone();
